@@ -81,7 +81,31 @@ func termsEq(a, b []*smt.Term) *smt.Term {
 	return r
 }
 
+// wellKnownPreimages: contents whose digests occur as literals in the code under test (the empty
+// blob and the empty JSON object of the image spec). They are registered before the first hash of
+// a path so that a symbolic digest is axiomatised to differ from those literals as well.
+var wellKnownPreimages = []string{"", "{}"}
+
 func (e *Engine) hashBytes(alg string, content []*smt.Term) []*smt.Term {
+	seeded := false
+	for _, h := range e.hashReg {
+		if h.alg == alg {
+			seeded = true
+			break
+		}
+	}
+	if !seeded {
+		for _, w := range wellKnownPreimages {
+			var c, sum []*smt.Term
+			for _, b := range []byte(w) {
+				c = append(c, byteConst[b])
+			}
+			for _, b := range realHash(alg, []byte(w)) {
+				sum = append(sum, byteConst[b])
+			}
+			e.hashReg = append(e.hashReg, &hashEntry{alg: alg, content: c, sum: sum})
+		}
+	}
 	for _, h := range e.hashReg {
 		if h.alg == alg && sameTerms(h.content, content) {
 			return h.sum
